@@ -56,6 +56,8 @@ class Gen(object):
         self.sigs = sigs              # {cls: {name: sig}}
         self.info = info
         self.tok = 0
+        self.kept = {}
+        self.targets = []
 
     def token(self):
         self.tok += 1
@@ -89,6 +91,51 @@ class Gen(object):
                     keep.append(cf)
             c["bmp"] = [[list(k), i] for i, k in enumerate(keep)]
         return c
+
+    def discovery(self):
+        """A multi-board machine for a real run of discover_connections(): every Ethernet chip gets a status;
+        -> (description for the driver, the controller state that must result)"""
+        r = self.rng
+        w, h = r.choice([(12, 12), (12, 12), (24, 12), (12, 24), (24, 24), (8, 8)])
+        root = r.choice([(0, 0), (0, 0), (0, 0), (8, 4), (4, 8)]) if (w, h) != (8, 8) else (0, 0)
+        eths = sorted((x, y) for x in range(w) for y in range(h)
+                      if ((x - root[0]) % 12, (y - root[1]) % 12) in ((0, 0), (4, 8), (8, 4)))
+        eth = []
+        for xy in eths:
+            st = r.choice(["ok", "ok", "ok", "probe-fails", "probe-fails", "eth-down", "info-fails", "dead"])
+            if xy == root and st == "dead":
+                st = "ok"
+            eth.append([list(xy), st])
+        dead = [[x, y] for x in range(1, w - 1) for y in range(1, h - 1)
+                if (x, y) not in eths and r.random() < 0.02]
+        desc = dict(w=w, h=h, root=list(root), eth=eth, dead=dead)
+        # the connections that are known afterwards: discovered AND kept (the probe over them succeeded)
+        conns = [[xy, i + 1] for i, (xy, st) in enumerate(eth) if st == "ok"]
+        ctl = dict(width=w, height=h, root=list(root), conns=conns, bmp=[])
+        targets = []
+        for xy, st in eth:
+            for dx, dy in ((0, 0), (0, 0), (1, 0), (0, 1), (1, 1), (-1, 0), (0, -1), (4, 3), (7, 7)):
+                t = ((xy[0] + dx) % w, (xy[1] + dy) % h)
+                targets.append(t)
+        return desc, ctl, targets
+
+    def aim(self, pos, kw, names):
+        """address the call to one of the chips of interest (Ethernet chips and their neighbours)"""
+        if not self.targets or self.rng.random() > 0.85:
+            return
+        t = self.rng.choice(self.targets)
+        where = {}
+        for i, n in enumerate(names[:len(pos)]):
+            where[n] = ("pos", i)
+        for i, (k, _) in enumerate(kw):
+            where[k] = ("kw", i)
+        if "x" in where and "y" in where:
+            for n, v in (("x", t[0]), ("y", t[1])):
+                kind, i = where[n]
+                if kind == "pos":
+                    pos[i] = v
+                else:
+                    kw[i][1] = v
 
     def value(self, cls, method, name, ctl):
         r = self.rng
@@ -182,10 +229,14 @@ class Gen(object):
             pos.append(1)
             shape.append("too-many-positional")
         r.shuffle(kw)
+        self.aim(pos, kw, names)
         return pos, kw, shape + ["pos"] * npos
 
-    def block(self, cls, methods, ctl, inforce, depth):
-        """A list of ops using up the methods of `methods` (a list that is consumed)."""
+    def block(self, cls, methods, ctl, inforce, depth, active=(), noupdate=False):
+        """A list of ops using up the methods of `methods` (a list that is consumed).
+        active: the kept Context objects (variables) entered and not yet left;  noupdate: this level is the
+        block of a kept Context object -- update_current_context is not generated there (it would change the
+        object itself, which may be on the stack twice)."""
         r = self.rng
         ops = []
         n = r.randint(1, 4)
@@ -193,7 +244,7 @@ class Gen(object):
             if not methods:
                 break
             u = r.random()
-            if u < 0.45 or depth >= 4:
+            if (u < 0.45 or depth >= 5) and not (active and depth < 5 and r.random() < 0.3):
                 m = methods.pop()
                 if m == "application":
                     ops.append(self.app(cls, methods, ctl, inforce, depth))
@@ -214,23 +265,50 @@ class Gen(object):
                 if r.random() < 0.1:
                     chosen.append(r.choice(CTX_NAMES[cls]))
                 kw = [[nm, self.value(cls, "__call__", nm, ctl)] for nm in dict.fromkeys(chosen)]
-                ops.append(["with", kw, self.block(cls, methods, ctl, inforce | set(k for k, _ in kw), depth + 1)])
+                if "x" in dict(kw) and "y" in dict(kw) and self.targets and r.random() < 0.8:
+                    t = r.choice(self.targets)
+                    kw = [[k, t[0] if k == "x" else t[1] if k == "y" else v] for k, v in kw]
+                v = r.random()
+                var = None
+                if active and v < 0.45:
+                    var = r.choice(list(active))              # re-enter a Context object that is still active
+                    kw = self.kept[var]
+                    self.shapes.append(("__context__", ["re-entered-while-active"]))
+                elif self.kept and v < 0.55:
+                    var = r.choice(sorted(self.kept))         # re-use one that was left earlier (or is active)
+                    kw = self.kept[var]
+                    self.shapes.append(("__context__", ["re-used"]))
+                elif v < 0.75:
+                    var = len(self.kept)                      # keep this one in a variable
+                    self.kept[var] = kw
+                    self.shapes.append(("__context__", ["kept"]))
+                inner = self.block(cls, methods, ctl, inforce | set(k for k, _ in kw), depth + 1,
+                                   active=tuple(active) + ((var,) if var is not None else ()),
+                                   noupdate=var is not None)
+                if var is not None and methods and r.random() < 0.7:
+                    # a command at this level after the nested blocks have been left
+                    m = methods.pop()
+                    if m != "application":
+                        pos, ckw, shape = self.call(cls, m, ctl, inforce | set(k for k, _ in kw))
+                        inner.append(["call", m, pos, ckw, False])
+                        self.shapes.append((m, shape))
+                ops.append(["with", kw, inner, var])
             elif u < 0.83 and cls == "MC":
-                ops.append(self.app(cls, methods, ctl, inforce, depth))
-            elif u < 0.88:
+                ops.append(self.app(cls, methods, ctl, inforce, depth, active))
+            elif u < 0.88 and not noupdate:
                 nm = r.choice(CTX_NAMES[cls])
                 ops.append(["update", [[nm, self.value(cls, "__call__", nm, ctl)]]])
                 inforce = inforce | {nm}
             elif u < 0.91:
                 ops.append(["raise"])
             else:
-                ops.append(["try", self.block(cls, methods, ctl, inforce, depth + 1)])
+                ops.append(["try", self.block(cls, methods, ctl, inforce, depth + 1, active, noupdate)])
         return ops
 
-    def app(self, cls, methods, ctl, inforce, depth):
+    def app(self, cls, methods, ctl, inforce, depth, active=()):
         pos, kw, shape = self.call(cls, "application", ctl, inforce)
         self.shapes.append(("application", shape))
-        return ["app", pos, kw, self.block(cls, methods, ctl, inforce | {"app_id"}, depth + 1)]
+        return ["app", pos, kw, self.block(cls, methods, ctl, inforce | {"app_id"}, depth + 1, active)]
 
     def argnames(self, cls, m):
         sg = self.sigs[cls][m]
@@ -239,7 +317,15 @@ class Gen(object):
     def case(self, cls, methods):
         r = self.rng
         self.shapes = []
-        ctl = self.ctl(cls)
+        self.kept = {}
+        self.targets = []
+        desc = None
+        if cls == "MC" and r.random() < 0.3:
+            desc, ctl, self.targets = self.discovery()
+        else:
+            ctl = self.ctl(cls)
+            if cls == "MC" and ctl["conns"]:
+                self.targets = [tuple(xy) for xy, _ in ctl["conns"]]
         u = r.random()
         if u < 0.55:
             init = None
@@ -254,7 +340,10 @@ class Gen(object):
         ops = []
         while methods:
             ops += self.block(cls, methods, ctl, inforce, 0)
-        return dict(cls=cls, init=init, ctl=ctl, ops=ops), self.shapes
+        case = dict(cls=cls, init=init, ctl=ctl, ops=ops)
+        if desc is not None:
+            case["discover"] = desc
+        return case, self.shapes
 
 
 # ------------------------------------------------------------------ exhaustive small domain (thorough tier)
@@ -769,7 +858,28 @@ class Oracle(object):
                     if self.why and self.why[0] == "events":
                         raise
 
+    def check_discovery(self, out):
+        """the connections known after discover_connections(): discovered AND kept"""
+        d = self.case.get("discover")
+        if not d:
+            return
+        want = self.case["ctl"]
+        got = out.get("ctl_after")
+        if out.get("discover_exc"):
+            self.fail("discover-raised", "discover_connections() raised %s on machine %r" % (out["discover_exc"], d))
+            return
+        if got is None:
+            self.fail("discover-raised", "no state reported after discover_connections()")
+            return
+        if [got["width"], got["height"], got["root"]] != [want["width"], want["height"], want["root"]]:
+            self.fail("discovered-geometry", "after discover_connections(): dimensions/root %r, machine is %r"
+                      % ([got["width"], got["height"], got["root"]], [want["width"], want["height"], want["root"]]))
+        if sorted(got["conns"]) != sorted(want["conns"]) or got["closed"]:
+            self.fail("discovered-connections", "after discover_connections() on %r: connections held %r (closed: %r),"
+                      " expected those whose probe succeeded: %r" % (d["eth"], got["conns"], got["closed"], want["conns"]))
+
     def decide(self, out):
+        self.check_discovery(out)
         unwound = False
         try:
             self.run(self.case["ops"])
@@ -815,7 +925,13 @@ def run(chk, args):
         "application ids are bytes (0..255); machine dimensions are positive",
         "non-contextual arguments are well formed (aligned addresses for the link commands, valid signal / "
         "state names, 0 <= tag < 256, non-empty application maps and routing tables)",
-        "context blocks are entered and left by `with` (properly nested)"]
+        "context blocks are entered and left by `with` (properly nested); a Context object kept in a variable may "
+        "be re-entered any number of times, also while it is already active (the model pushes an equal frame); "
+        "update_current_context is not called while such a kept object is the innermost context (it would change "
+        "the object itself, i.e. every occurrence of it on the stack)",
+        "histories that start with discover_connections() run it for real against a simulated multi-board machine "
+        "(harness/impl_c18.py Machine: Ethernet links up/down, probes that time out, dead chips); the model and "
+        "the oracle start from the state that must result (connections discovered AND kept)"]
     chk.regenerate(UNITS)
     chk.prove()
     try:
@@ -889,9 +1005,12 @@ def run(chk, args):
                     chk.count("commands-per-call:%s" % min(len(e[2] if e[0] == "call" else e[1]), 6))
             chk.count("raised-at-top:" + str(o["raised"]))
             chk.count("class:" + c["cls"])
-            chk.count("geometry:" + ("known" if c["ctl"]["width"] and c["ctl"]["height"] and c["ctl"]["root"]
+            chk.count("geometry:" + ("discovered" if c.get("discover") else "known" if c["ctl"]["width"] and c["ctl"]["height"] and c["ctl"]["root"]
                                      else "unknown") if c["cls"] == "MC" else "bmp-connections:%d" % len(c["ctl"]["bmp"]))
-            chk.note_case(dict(cls=c["cls"], init=c["init"], ctl=c["ctl"], ops=c["ops"]),
+            if c.get("discover"):
+                chk.count("discovery:" + ",".join("%s=%d" % (k, sum(1 for _, st in c["discover"]["eth"] if st == k))
+                                                  for k in ("ok", "probe-fails")))
+            chk.note_case(dict(cls=c["cls"], init=c["init"], ctl=c["ctl"], ops=c["ops"], discover=c.get("discover")),
                           (ncalls >= 2 or c["ctl"] is EXH_CTL[c["cls"]])
                           and any(op[0] in ("with", "app") for op in c["ops"]))
             why = Oracle(sigs, info, c, o).decide(o)
@@ -929,7 +1048,9 @@ def run(chk, args):
     chk.coverage["rule"] = (
         "random histories over MachineController (discovered connections on random SpiNN-5 geometries, or none) "
         "and BMPController (random (c,f)/(c,f,b) connection sets): nested with-blocks setting subsets of the "
-        "contextual names, application blocks, update_current_context, raise / try, and calls of every decorated "
+        "contextual names -- anonymous or kept in a variable and re-entered, also while still active --, application "
+        "blocks, update_current_context, raise / try, a real discover_connections() run on a simulated machine with "
+        "failing probes followed by commands to every board's Ethernet chip and neighbours, and calls of every decorated "
         "method with each argument passed positionally / by keyword / via context / by default / left out, plus "
         "unexpected-keyword, multiple-values and too-many-positional shapes; every method is called in every round "
         "(%d methods). thorough tier adds the exhaustive enumeration: every method x every number of positional "
